@@ -1,6 +1,8 @@
 // C10 correspondence harness: calls the REAL decision methods of the build system for every value kind.
-// usage: vc10 c10table <scratch-dir>     -- one op per stdin line, one canonical line per op (see Drv/C10.lean)
-//        vc10 c10build                   -- `build <dir> <lanes>` ops: in-process keep-going builds for the end-to-end oracle
+// usage: vc10 c10table <scratch-dir>     -- one op per stdin line, one canonical line per op (see Drv/C10.lean):
+//                                        rfo / prov / valid / pnode / pdir / pred (value-kind tables), proc (real children through the
+//                                        real execution queue), life (start / providePriorValue / provideValue / execute sequences)
+//        vc10 c10build                   -- `build|session <dir> <lanes>`, `drop <dir>`: in-process keep-going builds for the end-to-end oracle
 //
 // The task and command classes live in an anonymous namespace of BuildSystem.cpp, so that translation unit
 // is compiled into the harness (same flags as the library; the archive member is then not pulled in).
@@ -11,8 +13,11 @@
 #include "llbuild/Basic/ExecutionQueue.h"
 #include "llbuild/Basic/FileSystem.h"
 
+#include <chrono>
+#include <condition_variable>
 #include <fstream>
 #include <map>
+#include <mutex>
 #include <sys/stat.h>
 #include <unistd.h>
 
@@ -194,6 +199,57 @@ static std::string provManifest(unsigned ninputs) {
   return m;
 }
 
+// One phony command per allow-modified-outputs setting, no inputs, one FILE output: the object on which the
+// per-execution protocol of ExternalCommand (start / providePriorValue / provideValue / execute) is driven by `life` ops.
+static std::string lifeManifest(const std::string& out) {
+  std::string m = "client:\n  name: mock\n\ncommands:\n";
+  for (int amo = 0; amo < 2; amo++)
+    m += std::string("  U") + (amo ? ".amo" : "") + ":\n    tool: phony\n    outputs: [\"" + out + "\"]\n" +
+         (amo ? "    allow-modified-outputs: \"true\"\n" : "");
+  return m;
+}
+
+static const char* procStatusName(ProcessStatus s) {
+  switch (s) {
+  case ProcessStatus::Failed: return "Failed";
+  case ProcessStatus::Cancelled: return "Cancelled";
+  case ProcessStatus::Succeeded: return "Succeeded";
+  case ProcessStatus::Skipped: return "Skipped";
+  case ProcessStatus::Unknown: return "Unknown";
+  }
+  return "?";
+}
+
+// Runs `/bin/sh -c <script>` through the REAL execution queue (executeProcess -> spawnProcess -> wait4 ->
+// cleanUpExecutedProcess) and returns the ProcessResult handed to the completion function.
+class ProcJob : public JobDescriptor {
+public:
+  StringRef getOrdinalName() const override { return StringRef("proc"); }
+  void getShortDescription(SmallVectorImpl<char>&) const override {}
+  void getVerboseDescription(SmallVectorImpl<char>&) const override {}
+};
+
+static bool runChild(ExecutionQueue& q, const std::string& script, ProcessResult& out) {
+  static ProcJob desc;
+  struct Shared { std::mutex m; std::condition_variable cv; bool done = false; ProcessResult r; };
+  auto sh = std::make_shared<Shared>();
+  auto text = std::make_shared<std::string>(script);
+  q.addJob(QueueJob(&desc, [&q, sh, text](QueueJobContext* ctx) {
+    std::vector<StringRef> argv{"/bin/sh", "-c", *text};
+    ProcessCompletionFn fn = [sh](ProcessResult r) {
+      std::lock_guard<std::mutex> g(sh->m);
+      sh->r = r; sh->done = true; sh->cv.notify_all();
+    };
+    ProcessAttributes attrs = {true};
+    attrs.controlEnabled = false;
+    q.executeProcess(ctx, llvm::ArrayRef<StringRef>(argv), {}, attrs, llvm::Optional<ProcessCompletionFn>(fn), nullptr);
+  }));
+  std::unique_lock<std::mutex> lk(sh->m);
+  if (!sh->cv.wait_for(lk, std::chrono::seconds(20), [&] { return sh->done; })) return false;
+  out = sh->r;
+  return true;
+}
+
 static void writeFile(const std::string& path, const std::string& data) {
   std::ofstream f(path, std::ios::binary | std::ios::trunc);
   f << data;
@@ -220,7 +276,10 @@ struct Loaded {
 static void mode_table(const std::string& scratch) {
   std::string dir = scratch + "/c10-" + std::to_string(getpid());
   mkdir(dir.c_str(), 0755);
-  std::string mpath = dir + "/table.llbuild", ppath = dir + "/prov.llbuild";
+  std::string mpath = dir + "/table.llbuild", ppath = dir + "/prov.llbuild", lpath = dir + "/life.llbuild";
+  QDelegate procDelegate;
+  std::unique_ptr<ExecutionQueue> procQueue(createLaneBasedExecutionQueue(
+      procDelegate, 1, SchedulerAlgorithm::FIFO, getDefaultQualityOfService(), nullptr));
   Loaded T(mpath, tableManifest(dir));
   // archive / shared-library complain about more than one file output but still configure all of them
   // (ExternalCommand::configureOutputs ran first); any other diagnostic means the manifest no longer loads as intended
@@ -325,6 +384,47 @@ static void mode_table(const std::string& scratch) {
       if (!makeValue(atoi(f[1].c_str()), 1, 0, false, v)) out = "unknown-kind";
       else out = (f[0] == "pnode" ? ProducedNodeTask::isResultValid(engine, *plain, *v)
                                   : ProducedDirectoryNodeTask::isResultValid(engine, *dnode, *v)) ? "1" : "0";
+    } else if (f[0] == "proc" && f.size() == 3) {
+      // a real child that ends by exit(n) / is killed by signal n (no core file: RLIMIT_CORE 0); raw = the wait status
+      int n = atoi(f[2].c_str());
+      std::string script = f[1] == "exit" ? "exit " + std::to_string(n)
+                                          : "ulimit -c 0; kill -" + std::to_string(n) + " $$; sleep 10; exit 97";
+      ProcessResult r;
+      if (f[1] != "exit" && f[1] != "sig") out = "bad-op";
+      else if (!runChild(*procQueue, script, r)) out = "no-completion";
+      else out = "raw=" + std::to_string(r.exitCode) + " status=" + procStatusName(r.status);
+    } else if (f[0] == "life" && f.size() == 4) {
+      // the per-execution protocol on ONE command object: s = start, p<k> = providePriorValue(kind k),
+      // v<k> = provideValue(kind k), x = execute (one outcome per x); the output file exists iff f[2] == "1"
+      std::string outPath = dir + "/u.out";
+      Loaded Lm(lpath, lifeManifest(outPath));
+      Command* c = Lm.ok ? Lm.d.commands[f[1] == "1" ? "U.amo" : "U"] : nullptr;
+      if (f[2] == "1") writeFile(outPath, "x"); else unlink(outPath.c_str());
+      if (!c) out = "load-failed";
+      else {
+        auto ti = nullTaskInterface();
+        out = "";
+        bool bad = false;
+        for (auto& s : vh::split(f[3], ',')) {
+          if (s == "s") c->start(*Lm.system, ti);
+          else if (s[0] == 'p' || s[0] == 'v') {
+            llvm::Optional<BuildValue> v;
+            if (!makeValue(atoi(s.c_str() + 1), 1, 0, false, v)) { bad = true; break; }
+            if (s[0] == 'p') c->providePriorValue(*Lm.system, ti, *v);
+            else c->provideValue(*Lm.system, ti, 0, BuildKey::makeNode(StringRef("<in>")).toData(), *v);
+          } else if (s == "x") {
+            unsigned before = Lm.d.started;
+            llvm::Optional<BuildValue> result;
+            c->execute(*Lm.system, ti, nullptr, [&](BuildValue&& r) { result.emplace(std::move(r)); });
+            if (!out.empty()) out += ";";
+            if (!result.hasValue()) out += "no-result";
+            else if (Lm.d.started != before) out += result->isSuccessfulCommand() ? "run" : "run-unsuccessful";
+            else if (result->isSuccessfulCommand()) out += "update";
+            else out += "skip=" + std::to_string((unsigned)result->getKind());
+          } else { bad = true; break; }
+        }
+        if (bad) out = "bad-op";
+      }
     } else if (f[0] == "pred" && f.size() == 3) {
       llvm::Optional<BuildValue> v;
       bool r = false;
@@ -350,22 +450,55 @@ public:
   }
 };
 
+// ops:  build <dir> <lanes>     a NEW BuildSystem for this one build (what a process per build does)
+//       session <dir> <lanes>   the BuildSystem of <dir> is created by the first such op and REUSED by the later ones
+//                               (resetForBuild() before each further build: what BuildSystemFrontend::initialize does
+//                               when its `system` already exists); the description is loaded once
+//       drop <dir>              destroys the session of <dir>
+struct Session {
+  KeepGoingDelegate d;
+  std::unique_ptr<BuildSystem> system;
+  bool loaded = false;
+};
+
 static void mode_build() {
+  std::map<std::string, std::unique_ptr<Session>> sessions;
   std::string line;
   while (std::getline(std::cin, line)) {
     auto f = vh::split(line);
-    if (f.size() != 3 || f[0] != "build") { std::cout << "bad-op\n"; continue; }
-    if (chdir(f[1].c_str()) != 0) { std::cout << "chdir-failed\n"; continue; }
-    KeepGoingDelegate d;
-    d.lanes = atoi(f[2].c_str());
+    if (f.size() == 2 && f[0] == "drop") { sessions.erase(f[1]); std::cout << "dropped\n"; std::cout.flush(); continue; }
+    if (f.size() != 3 || (f[0] != "build" && f[0] != "session")) { std::cout << "bad-op\n"; std::cout.flush(); continue; }
+    if (chdir(f[1].c_str()) != 0) { std::cout << "chdir-failed\n"; std::cout.flush(); continue; }
     bool ok;
-    {
-      BuildSystem system(d, createLocalFileSystem());
-      std::string err;
-      system.attachDB("build.db", &err);
-      ok = system.loadDescription("build.llbuild") && system.build(StringRef(""));
+    unsigned failures, errors;
+    if (f[0] == "build") {
+      KeepGoingDelegate d;
+      d.lanes = atoi(f[2].c_str());
+      {
+        BuildSystem system(d, createLocalFileSystem());
+        std::string err;
+        system.attachDB("build.db", &err);
+        ok = system.loadDescription("build.llbuild") && system.build(StringRef(""));
+      }
+      failures = d.failures; errors = d.errors.size();
+    } else {
+      auto& sp = sessions[f[1]];
+      if (!sp) {
+        sp.reset(new Session);
+        sp->d.lanes = atoi(f[2].c_str());
+        sp->system.reset(new BuildSystem(sp->d, createLocalFileSystem()));
+        std::string err;
+        sp->system->attachDB("build.db", &err);
+        sp->loaded = sp->system->loadDescription("build.llbuild");
+      } else {
+        sp->d.failures = 0;
+        sp->d.errors.clear();
+        sp->system->resetForBuild();
+      }
+      ok = sp->loaded && sp->system->build(StringRef(""));
+      failures = sp->d.failures; errors = sp->d.errors.size();
     }
-    std::cout << "ok=" << (ok ? 1 : 0) << " failures=" << d.failures << " errors=" << d.errors.size() << "\n";
+    std::cout << "ok=" << (ok ? 1 : 0) << " failures=" << failures << " errors=" << errors << "\n";
     std::cout.flush();
   }
 }
